@@ -80,7 +80,12 @@ int sbdf_convert_utf8_to_iso88591(char const* inp, char* out)
 		else if (ch >= 0xc0 && ch < 0xdf)
 		{
 			int uch = (ch & 0x1f) << 6;
-			ch = *inp++;
+			ch = *inp;
+			if (ch)
+			{
+				/* do not consume the terminator after a trailing lead byte */
+				++inp;
+			}
 			uch += ch & 0x3f;
 			if ((ch & 0xc0) != 0x80 || uch >= 0x100)
 			{
